@@ -44,25 +44,33 @@ NoFn == [n \in {} |-> 0]
 (*           the only computed coefficient of y; one surrogate variable s2)*)
 (*   lin   : state-independent rates (the exact flow is linear in time:    *)
 (*           used to bind the Simulator path, see SimResult)               *)
+(*   linia : lin with the parameter p DEFINED BY AN ASSIGNMENT from the    *)
+(*           declared initial value of x and the parameter q; a segment's  *)
+(*           "parameters in force" contain its resolved value (or the      *)
+(*           number it was overridden with), see ResolveSteps              *)
 (***************************************************************************)
-Variants == {"par", "state", "sur", "lin"}
+Variants == {"par", "state", "sur", "lin", "linia"}
+IsLin(variant) == variant \in {"lin", "linia"}
 
 Content(variant) ==
     [vars |-> <<"x", "y">>,
      init |-> [v \in {"x", "y"} |-> M!Num(IF v = "x" THEN 2 ELSE 3)],
-     pars |-> [n \in {"p", "q"} |-> M!Num(IF n = "p" THEN 7 ELSE 11)],
+     pars |-> [n \in {"p", "q"} |->
+                 IF n = "p" /\ variant = "linia"
+                 THEN [k |-> "ia", fn |-> "add", args |-> <<"x", "q">>]   \* assignment-defined: p = x(0) + q
+                 ELSE M!Num(IF n = "p" THEN 7 ELSE 11)],
      der  |-> [n \in {"dp", "d1"} |->
                  IF n = "dp" THEN [fn |-> "dbl", args |-> <<"p">>]
                  ELSE IF variant = "state" THEN [fn |-> "mad", args |-> <<"x", "time", "q">>]
                  ELSE [fn |-> "add", args |-> <<"x", "q">>]],
      rxn  |-> [n \in {"r1", "r2"} |->
                  IF n = "r1"
-                 THEN [fn   |-> IF variant = "lin" THEN "id" ELSE "mul",
-                       args |-> IF variant = "lin" THEN <<"p">> ELSE <<"p", "x">>,
+                 THEN [fn   |-> IF IsLin(variant) THEN "id" ELSE "mul",
+                       args |-> IF IsLin(variant) THEN <<"p">> ELSE <<"p", "x">>,
                        st   |-> ("x" :> M!Num(0 - 1)) @@
                                 ("y" :> IF variant = "par" THEN Calc("id", <<"dp">>) ELSE M!Num(2))]
-                 ELSE [fn   |-> IF variant = "lin" THEN "two" ELSE "add",
-                       args |-> IF variant = "lin" THEN <<>> ELSE <<"d1", "y">>,
+                 ELSE [fn   |-> IF IsLin(variant) THEN "two" ELSE "add",
+                       args |-> IF IsLin(variant) THEN <<>> ELSE <<"d1", "y">>,
                        st   |-> ("y" :> IF variant = "par" THEN Calc("neg", <<"p">>) ELSE M!Num(0 - 1)) @@
                                 ("x" :> IF variant = "state" THEN Calc("mad", <<"time", "y", "p">>)
                                                              ELSE Calc("id", <<"q">>))]],
@@ -304,6 +312,23 @@ SimSegs(c, steps, y0, t0) ==
              rows == [j \in DOMAIN s.times |-> [t |-> s.times[j], y |-> LinFlow(cs, y0, t0, s.times[j])]]
              last == rows[Len(rows)]
          IN <<[pars |-> s.pars, rows |-> rows]>> \o SimSegs(c, Tail(steps), last.y, last.t)
+
+\* A scenario may give its steps as EDITS (set = the parameters updated before the step, by numbers): the
+\* parameters in force during the step are all parameters of the declaration as it then stands, assignment-defined
+\* ones resolved (MxlModel: evaluated once, at time 0, from the declared initial state)
+ApplySet(c, set) == [c EXCEPT !.pars = [n \in DOMAIN c.pars |-> IF n \in DOMAIN set THEN M!Num(set[n]) ELSE c.pars[n]]]
+InForce(c) == [n \in DOMAIN c.pars |-> M!InitEnv(c)[n]]
+RECURSIVE ResolveSteps(_, _)
+ResolveSteps(c, steps) ==
+    IF steps = <<>> THEN <<>>
+    ELSE LET c2 == ApplySet(c, Head(steps).set)
+         IN <<[pars |-> InForce(c2), times |-> Head(steps).times]>> \o ResolveSteps(c2, Tail(steps))
+
+\* the Simulator session with an assignment-defined parameter: q updated (p follows), then p overridden by a number
+IaScenario == [y0 |-> ("x" :> 2) @@ ("y" :> 3),
+               steps |-> << [set |-> ("q" :> 11), times |-> <<0, 1, 2>>],
+                            [set |-> ("q" :> 3),  times |-> <<3, 4>>],
+                            [set |-> ("p" :> 7),  times |-> <<6>>] >>]
 
 FSeg == <<2, 5, 3>>
 FRow == <<2, 3, 5, 7, 11, 13>>
